@@ -1,8 +1,9 @@
-\* C04 thorough (model checking only, 1): 2 threads, <= 3 spans (verdict free), <= 4 frames, 1 task, nesting <= 2, all forms, incoming ids, async-fn spans.
+\* C04 thorough (model checking only, 1): 2 threads, <= 3 spans (verdict free), <= 4 frames, 1 task, nesting <= 2, all forms, incoming trace+span ids, async-fn spans.
 SPECIFICATION SSpec
 CONSTANTS
     NThreads = 2
     StoreOf <- MC_Store1
+    InstKind <- MC_Kind1
     NKeys = 3
     PropChoices <- MC_None
     Kinds <- MC_None
@@ -12,7 +13,7 @@ CONSTANTS
     MaxDepth = 2
     Panics = FALSE
     MaxSpans = 3
-    WithIncoming = TRUE
+    IncomingKinds <- MC_IncBoth
     WithLazy = TRUE
     Emit = FALSE
 VIEW sview
